@@ -301,6 +301,10 @@ class Check:
                 if fid in self.known_ids and any(o.clause.endswith(cl) or cl in o.clause for cl in spec["clauses"]):
                     fid_hit = fid
         rep = {"reproduced": None, "why": "lemma (no code to replay)"}
+        if c is None:
+            # a lemma over contracts does not depend on /repo: a refuted lemma is an error of the checker, not a property violation
+            self.faults.append(f"lemma refuted: {o.name} model={r['model']}")
+            return
         if c is not None:
             try:
                 rep = c.replay(o.clause.split("].", 1)[-1], r["model"] or {}, o.cfg) or {"reproduced": None}
